@@ -73,6 +73,21 @@ def run(res, tier, only_case=None):
                     seqs.append((g, sh, g))
             for _ in range(4 if tier == "quick" else 40):
                 seqs.append(tuple(rng.choice(syms + shorts) for _ in range(rng.choice((3, 5, 60)))))
+            # requests with a buffer LARGER than the chunk in the history (the end of the chunk is then reached
+            # inside the read loop, with the chunk checksum context of the request): the first <declared size>
+            # bytes must be the chunk, whatever was requested before
+            longs = []
+            for k in range(1, n):   # not the dictionary entry: the bytes after it belong to chunk 1, which such a
+                d = b.entries[k]    # request would decode without the dictionary (outside the property: larger buffer)
+                if len(d):
+                    exp["P%d:%d" % (k, len(d) + 3)] = "prefix:%d/%s" % (len(d), c02.h16(d))
+                    longs.append("P%d:%d" % (k, len(d) + 3))
+            for lg in longs:
+                for g in gsyms:
+                    seqs.append((g, lg))
+                    seqs.append((lg, g, lg))
+            for _ in range(10 if tier == "quick" else 200):
+                seqs.append(tuple(rng.choice(syms + longs) for _ in range(rng.choice((4, 8)))))
             for sq in seqs:
                 items.append(("%s:len%d" % (b.kind, len(sq)), [exp[x] for x in sq], "F %s %s" % (b.f.hex(), ",".join(sq))))
     lines = [it[2] for it in items]
@@ -103,6 +118,13 @@ def run(res, tier, only_case=None):
                     val = g.split("=", 1)[1].split("!")[0] if "=" in g else g
                     if o[0] == "r" and g.endswith("!1"):
                         break   # a failed zck_read leaves the context in the error state: later requests are refused, by contract
+                    if e is not None and e.startswith("prefix:"):
+                        parts = val.split("/")
+                        want_len, want_h = e[7:].split("/")
+                        if not (len(parts) == 4 and parts[0].isdigit() and int(parts[0]) >= int(want_len) and parts[3] == want_h):
+                            bad = "request #%d (%s, buffer larger than the chunk) after %s returns %s; its first %s bytes should hash to %s" % (j + 1, o, ",".join(ops[:j]) or "nothing", val, want_len, want_h)
+                            break
+                        continue
                     if e is not None and val != e:
                         bad = "request #%d (%s) after %s returns %s instead of %s (return value/bytes/sha256-64)" % (j + 1, o, ",".join(ops[:j]) or "nothing", val, e)
                         break
